@@ -536,6 +536,27 @@ fn run_on_pty(env: &RealEnv, dir: &Path, args: &[String], cols: u16, rows: u16, 
     (status.and_then(|s| s.code()), status.and_then(|s| s.signal()), shown, timed_out, resized_at)
 }
 
+/// Remove ANSI escape sequences and carriage returns, keeping the bytes as sent.
+fn strip_ansi_bytes(b: &[u8]) -> Vec<u8> {
+    let mut out = Vec::new();
+    let mut i = 0;
+    while i < b.len() {
+        if b[i] == 0x1b && i + 1 < b.len() && b[i + 1] == b'[' {
+            i += 2;
+            while i < b.len() && !(0x40..=0x7e).contains(&b[i]) {
+                i += 1;
+            }
+            i += 1;
+        } else if b[i] == b'\r' {
+            i += 1;
+        } else {
+            out.push(b[i]);
+            i += 1;
+        }
+    }
+    out
+}
+
 /// Remove ANSI escape sequences and carriage returns.
 fn strip_ansi(b: &[u8]) -> String {
     let mut out = Vec::new();
@@ -702,6 +723,27 @@ pub fn c20_pty_case(ctx: &Ctx, env: &RealEnv, dir: &Path, case: u64, seed: u64, 
         // a width below 10 is not accepted: nothing may be cut for it (cut lines are cut for 80 columns)
         if cols < 10 && resized_to.is_none() && (l.starts_with('D') || l.starts_with("printf")) && l.len() < 40 && l.ends_with("...") {
             rep.violation("narrow-width-accepted", &format!("on a {}-column terminal the task line was cut to {:?}", cols, l), mk());
+        }
+    }
+    // rows of the status area that show a running command's last output line (two spaces, then the line):
+    // at most the terminal width in bytes, measured on what was actually sent to the terminal
+    {
+        let w1 = if cols < 10 { 80 } else { cols as usize };
+        let width = w1.max(resized_to.unwrap_or(0) as usize).max(12);
+        let raw = strip_ansi_bytes(&pty.3);
+        for row in raw.split(|&b| b == b'\n') {
+            if row.starts_with(b"  ") {
+                rep.count("last_line_rows_seen", 1);
+                if row.len() > width {
+                    rep.violation("last-line-row-too-wide", &format!("a last-output-line row is {} bytes on a {}-column terminal: {:?}", row.len(), width, String::from_utf8_lossy(row)), mk());
+                    break;
+                }
+                if std::str::from_utf8(row).is_ok() && row.ends_with("\u{fffd}".as_bytes()) && row.len() + 3 > width {
+                    // a replacement character at the cut: the line was cut inside a character
+                    // (only a claim when the line itself had none there; raw-byte lines are skipped below)
+                    rep.count("last_line_rows_ending_in_replacement", 1);
+                }
+            }
         }
     }
     // after a resize, frames drawn from the second one on must respect the new width
